@@ -1,0 +1,49 @@
+//go:build verif
+
+// Contracts for this package, checked by /verif/bin/govc (comment-only file).
+package analysis
+
+//@ fileprops C18
+
+// Totality sweep: every function of the package is checked for index / slice-bounds /
+// nil / division / conversion panics on ALL inputs; loop invariants for index bounds are inferred.
+//@ sweep nopanic nonil infer
+
+// Helpers with a natural domain get explicit preconditions; every call site in the analyzers
+// then has to establish them (obligations "pre <callee>").
+
+//@ func DeleteRune
+//@   nopanic nonil
+//@   requires 0 <= pos
+//@   modifies elems(in)
+//@   ensures len(result) <= len(in) && (pos < len(in) ==> len(result) == len(in) - 1) && (pos >= len(in) ==> len(result) == len(in))
+//@   ensures base(result) == base(in) && off(result) == off(in)
+
+//@ func InsertRune
+//@   nopanic nonil
+//@   pure
+//@   requires 0 <= pos && pos <= len(in)
+//@   ensures len(result) == len(in) + 1
+
+//@ func TruncateRunes
+//@   nopanic nonil
+//@   pure
+//@   requires 0 <= num && num <= runecount(elems(input), off(input), len(input))
+
+//@ func BuildTermFromRunesOptimistic
+//@   nopanic nonil
+//@   infer
+//@   requires forall i int :: 0 <= i && i < len(runes) ==> validrune(runes[i])
+//@   loop 1
+//@     invariant 0 <= used && used <= len(rv) && used <= 4 * (rangeindex + 1)
+//@     invariant base(rv) == base(buf) && off(rv) == off(buf) && len(rv) == len(buf) || len(rv) == 4 * len(runes)
+
+//@ func BuildTermFromRunes
+//@   nopanic nonil
+//@   pure
+//@   requires forall i int :: 0 <= i && i < len(runes) ==> validrune(runes[i])
+
+//@ func RunesEndsWith
+//@   nopanic nonil
+//@   pure
+//@   infer
